@@ -16,13 +16,14 @@ func lenValues(rem uint64) [][2]any {
 	return [][2]any{
 		{"0", uint64(0)}, {"1", uint64(1)},
 		{"rem-1", rem - 1}, {"rem", rem}, {"rem+1", rem + 1},
-		{"2^16", uint64(1) << 16}, {"2^20", uint64(1) << 20}, {"2^24", uint64(1) << 24},
+		{"2^16", uint64(1) << 16}, {"2^20", uint64(1) << 20}, {"2^22", uint64(1) << 22}, {"2^24", uint64(1) << 24}, {"2^25", uint64(1) << 25},
 		{"2^31", uint64(1) << 31}, {"2^32-1", uint64(1)<<32 - 1}, {"2^32", uint64(1) << 32}, {"2^32+1", uint64(1)<<32 + 1},
 		{"2^62", uint64(1) << 62}, {"2^63-1", uint64(1)<<63 - 1}, {"2^63", uint64(1) << 63}, {"2^64-1", ^uint64(0)},
 	}
 }
 
 type binLevel struct {
+	light      bool
 	gens       int // generated values per entry point
 	allOffsets int // encodings up to this length get every window offset
 	extraOff   int // sampled offsets beyond the plausible ones for longer encodings
@@ -36,7 +37,7 @@ type binLevel struct {
 func binLevelOf(b *recB, light bool) binLevel {
 	switch {
 	case light:
-		return binLevel{gens: 1, allOffsets: 96, extraOff: 16, flips: 48, multis: 16, randoms: 4, prefixes: 64, nestDeep: []int{31, 32, 33, 40, 1000}}
+		return binLevel{light: true, gens: 1, allOffsets: 96, extraOff: 16, flips: 48, multis: 16, randoms: 4, prefixes: 64, nestDeep: []int{31, 32, 33, 40, 1000}}
 	case b.Quick():
 		return binLevel{gens: 3, allOffsets: 420, extraOff: 96, flips: 256, multis: 96, randoms: 8, prefixes: 300, nestDeep: []int{31, 32, 33, 34, 40, 100, 1000, 5000, 20000, 200000}}
 	default:
@@ -137,59 +138,9 @@ func fuzzBinEntry(b *recB, f *feeder, e wirereg.Entry, rng *rand.Rand, lv binLev
 	}
 	f.flush() // calibrate the CPU bound on the valid inputs first
 
-	for gi, enc := range encs {
+	// length-prefix attacks on every 8-byte window
+	lenAttack := func(enc []byte, fatalProne bool) {
 		n := len(enc)
-		// prefixes
-		if n <= lv.prefixes {
-			for k := 0; k < n; k++ {
-				f.add("prefix", sizeClass(k), enc[:k])
-			}
-		} else {
-			for k := 0; k < 64; k++ {
-				f.add("prefix", sizeClass(k), enc[:k])
-				f.add("prefix", "tail", enc[:n-1-k])
-			}
-			for i := 0; i < lv.prefixes; i++ {
-				k := rng.IntN(n)
-				f.add("prefix", sizeClass(k), enc[:k])
-			}
-		}
-		// single-byte mutations
-		for i := 0; i < lv.flips && n > 0; i++ {
-			p := i
-			if n > lv.flips/4 {
-				p = rng.IntN(n)
-			} else {
-				p = (i / 4) % n
-			}
-			d := cp(enc)
-			var sub string
-			switch i % 4 {
-			case 0:
-				d[p] ^= 1 << uint(rng.IntN(8))
-				sub = "bit"
-			case 1:
-				d[p] = 0xFF
-				sub = "ff"
-			case 2:
-				d[p] = 0
-				sub = "00"
-			default:
-				d[p]++
-				sub = "inc"
-			}
-			f.add("flip", sub, d)
-		}
-		// multi-byte mutations
-		for i := 0; i < lv.multis && n > 1; i++ {
-			d := cp(enc)
-			k := 2 + rng.IntN(7)
-			for j := 0; j < k; j++ {
-				d[rng.IntN(n)] = byte(rng.IntN(256))
-			}
-			f.add("multi", fmt.Sprint(k), d)
-		}
-		// length-prefix attacks on every 8-byte window
 		if n >= 8 {
 			offs := map[int]bool{}
 			if n <= lv.allOffsets {
@@ -232,11 +183,73 @@ func fuzzBinEntry(b *recB, f *feeder, e wirereg.Entry, rng *rand.Rand, lv binLev
 					plaus += "-aligned"
 				}
 				for _, lvp := range lenValues(uint64(n - o - 8)) {
+					x := lvp[1].(uint64)
+					if lv.light && x >= 1<<24 && x <= 1<<40 {
+						continue // -race copies: feasible-huge allocations make the race runtime itself crawl
+					}
+					// feasible-huge counts can kill the process outright (make() of tens of gigabytes): they run last
+					if (x >= 1<<31 && x <= 1<<40) != fatalProne {
+						continue
+					}
 					d := cp(enc)
 					binary.LittleEndian.PutUint64(d[o:], lvp[1].(uint64))
 					f.add("len", lvp[0].(string)+"/"+plaus, d)
 				}
 			}
+		}
+	}
+	for gi, enc := range encs {
+		n := len(enc)
+		// prefixes
+		if n <= lv.prefixes {
+			for k := 0; k < n; k++ {
+				f.add("prefix", sizeClass(k), enc[:k])
+			}
+		} else {
+			for k := 0; k < 64; k++ {
+				f.add("prefix", sizeClass(k), enc[:k])
+				f.add("prefix", "tail", enc[:n-1-k])
+			}
+			for i := 0; i < lv.prefixes; i++ {
+				k := rng.IntN(n)
+				f.add("prefix", sizeClass(k), enc[:k])
+			}
+		}
+		lenAttack(enc, false)
+		// single-byte mutations
+		for i := 0; i < lv.flips && n > 0; i++ {
+			p := i
+			if n > lv.flips/4 {
+				p = rng.IntN(n)
+			} else {
+				p = (i / 4) % n
+			}
+			d := cp(enc)
+			var sub string
+			switch i % 4 {
+			case 0:
+				d[p] ^= 1 << uint(rng.IntN(8))
+				sub = "bit"
+			case 1:
+				d[p] = 0xFF
+				sub = "ff"
+			case 2:
+				d[p] = 0
+				sub = "00"
+			default:
+				d[p]++
+				sub = "inc"
+			}
+			f.add("flip", sub, d)
+		}
+		// multi-byte mutations
+		for i := 0; i < lv.multis && n > 1; i++ {
+			d := cp(enc)
+			k := 2 + rng.IntN(7)
+			for j := 0; j < k; j++ {
+				d[rng.IntN(n)] = byte(rng.IntN(256))
+			}
+			f.add("multi", fmt.Sprint(k), d)
 		}
 		// tails: claims more than it provides / trailing junk
 		if gi < 4 {
@@ -304,6 +317,9 @@ func fuzzBinEntry(b *recB, f *feeder, e wirereg.Entry, rng *rand.Rand, lv binLev
 				f.add("nest", fmt.Sprintf("depth%d/width%d", depth, width), d)
 			}
 		}
+	}
+	for _, enc := range encs {
+		lenAttack(enc, true)
 	}
 }
 
